@@ -187,7 +187,7 @@ Fixpoint has_dup_pair (l : list edge) : bool :=
   | [] => false
   | e :: l' => existsb (fun e' => Nat.eqb (esrc e) (esrc e') && Nat.eqb (etgt e) (etgt e')) l' || has_dup_pair l'
   end.
-(* model switch for fixes/proposed_fix_C09_D18c.diff (false = the code as it is): the unbuffered edges get their source index back *)
+(* model switch of fix D94 (landed, on; false = the code before it): the unbuffered edges get their source index back *)
 Definition fixed_D18c : bool := true.
 Definition crashes (c : circuit) : bool :=
   negb fixed_D18c && negb (cvec c) &&
@@ -238,23 +238,23 @@ Definition g_no_explicit_none (c : circuit) : bool :=
 (* scope of the property: delays that round to at least two steps *)
 Definition g_delays_ge2 (c : circuit) : bool :=
   forallb (fun e => match ed e with Delay d => Nat.leb 2 (steps_of d (cdt c)) | _ => true end) (cedges c).
-(* D101 (open): an operator on the SAME node as a buffered source operator that reads the source variable through the operator graph
+(* D101 (repaired in /repo, switch on): before the fix an operator on the SAME node as a buffered source operator that reads the source variable through the operator graph
    (a "tap": op2 with w' = x next to op1 defining x) gets the operator's re-pointed output `x_buffered`, i.e. a delayed value (the
    last `_out{i}` buffer when vectorize=False; slot number <unit> of the buffered vector, or ValueError when the slot count differs from
    the unit count, when vectorize=True).  In this model a tap is an edge WITHOUT delay of weight 1 from the source node to an extra
    integrator node: that is what the specification and the repaired mechanism (fixes/fix_D101.diff: the operator's output is left
    alone) compute.  The defective read is NOT modelled; this guard delimits the class.  `taps` = positions of the tap edges in cedges.
-   fixed_tap: false = the code as it is. *)
+   fixed_tap (on): false = the code before fix D101. *)
 Definition fixed_tap : bool := true.
 Definition dedge : edge := mkEdge 0 0 0%Qc NoKey.
 Definition g_no_tap_on_buffered (taps : list nat) (c : circuit) : bool :=
   fixed_tap || forallb (fun i => negb (gadd c (skey c (nth i (cedges c) dedge)))) taps.
 
-(* D103 (open): vectorize=True, the frontend's _group_edges builds the per-edge lists of a group (same source class variable, target
+(* D103 (repaired in /repo, switch on): before the fix, with vectorize=True, the frontend's _group_edges builds the per-edge lists of a group (same source class variable, target
    class variable, delayed?) key by key from the edge dictionaries; an edge that lacks an entry other edges of its group have (here:
    `delay` present as None on one undelayed edge, absent on another) leaves the lists out of step: KeyError / shape mismatch, or
    silently misassigned values.  Not modelled; the guard delimits the class; repaired by fixes/fix_D103.diff (missing entries
-   are padded with None).  fixed_group_keys: false = the code as it is. *)
+   are padded with None).  fixed_group_keys (on): false = the code before fix D103. *)
 Definition fixed_group_keys : bool := true.
 Definition has_delay_key (e : edge) : bool := match ed e with NoKey => false | _ => true end.
 Definition g_uniform_keys (c : circuit) : bool :=
@@ -263,11 +263,11 @@ Definition g_uniform_keys (c : circuit) : bool :=
                                               Bool.eqb (is_delayed e) (is_delayed e')) ||
                                        Bool.eqb (has_delay_key e) (has_delay_key e')) (cedges c)) (cedges c).
 
-(* D110 (open, loud): the buffer constant `source_idx{buffer_id}` (ring buffer) and the rate constants `k_d{chain}{buffer_id}` (gamma
+(* D110 (repaired in /repo, switch on; was loud): before the fix the buffer constant `source_idx{buffer_id}` (ring buffer) and the rate constants `k_d{chain}{buffer_id}` (gamma
    kernels) do not carry the variable's name, so delayed edges leaving two DIFFERENT variables of ONE operator collide: PyRatesException
    'Buffer variable name collision' at compile time, both vectorize settings.  In the model the two variables of such an operator are two
    source nodes; `twins` lists the pairs.  Not modelled; the guard delimits the class (conservative for gamma kernels); repaired by
-   fix D110 (fixes/round8/01_D110.diff).  fixed_twin_names: false = the code as it is. *)
+   fix D110 (fixes/round8/01_D110.diff).  fixed_twin_names (on): false = the code before the fix. *)
 Definition fixed_twin_names : bool := true.
 Definition g_no_twin_collision (twins : list (nat * nat)) (c : circuit) : bool :=
   fixed_twin_names || forallb (fun p => negb (gadd c (nkey c (fst p)) && gadd c (nkey c (snd p)))) twins.
